@@ -271,6 +271,9 @@ def obligations(tier):
     # a disulfide-bonded cysteine at a chain end keeps the (neutral) terminal parameter set of its position (C13's pipeline pair, PARSE)
     from . import c13
 
+    from . import c05
+
+    obs.append(Obligation("neutral-termini-change-terminal-residues-only", c05.h_neutral_terminus_locality, dict(ff="parse"), group="neutral-termini-symx", time_cap=1500))
     obs.append(Obligation("neutral-termini-terminal-disulfide", c13.h_pipeline_pair, dict(ff="parse"), group="neutral-termini-symx", time_cap=1500))
     res = ["ALA", "GLY", "PRO", "LYS"] if tier == "quick" else ["ALA", "ARG", "ASP", "CYS", "GLU", "GLY", "HIS", "LYS", "PRO", "SER", "TYR"]
     for s in STRUCTS:
